@@ -176,10 +176,21 @@ def _structure_returns(block, retvar, line):
 
 def _bind(params, defaults, call, self_arg=None):
     """parameter name -> argument expression"""
-    if any(a[0] in ('star', 'dstar') for a in call[2]) or any(k is None for k, _ in call[3]):
+    if any(a[0] in ('star', 'dstar') for a in call[2]):
         raise NotInlinable('star arguments')
-    ps = list(params)
+    # `**options` handed through to a helper that collects `**kw` (a parameter spelled '**kw' in `params`): kw is that dictionary (the helper must not
+    # modify it -- the resolver checks that); explicit keywords that would land in the collected dictionary are not supported
+    kwp = [p_[2:] for p_ in params if p_.startswith('**')]
+    ps = [p_ for p_ in params if not p_.startswith('**')]
+    dst = [v for k, v in call[3] if k is None]
+    call = (call[0], call[1], call[2], tuple((k, v) for k, v in call[3] if k is not None))
     env = {}
+    if dst:
+        if len(dst) != 1 or not kwp or dst[0][0] != 'var':
+            raise NotInlinable('star arguments')
+        env[kwp[0]] = dst[0]
+    elif kwp:
+        env[kwp[0]] = ('dict', ())
     if self_arg is not None and ps:
         env[ps[0]] = self_arg
         ps = ps[1:]
